@@ -51,15 +51,21 @@ struct Interp;
 Interp * g_interp = nullptr;
 void deliver(int cb, const ArgView & v);
 
+// every callback object added to a list carries the serial number of its add and counts its own calls: it shows whether the
+// object an invocation runs is the one stored in the list (its state survives from call to call) or a copy made for the occasion
+int g_cbSerial = -1, g_cbOwnCalls = 0;
 struct Cb : public LedgeredT<2>
 {
-	explicit Cb(int cb) : LedgeredT<2>(kCbBase + cb) {}
+	explicit Cb(int cb, int serial_ = -1) : LedgeredT<2>(kCbBase + cb), serial(serial_) {}
 	int cb() const { return id - kCbBase; }
+	int serial;
+	mutable int ownCalls = 0;
+	void note() const { g_cbSerial = serial; g_cbOwnCalls = ++ownCalls; }
 
-	void operator() () const { touch(); ArgView v { 3, 0, nullptr, nullptr }; deliver(cb(), v); }
-	void operator() (int i, const Tracked & t) const { touch(); ArgView v { 0, i, &t, nullptr }; deliver(cb(), v); }
+	void operator() () const { touch(); note(); ArgView v { 3, 0, nullptr, nullptr }; deliver(cb(), v); }
+	void operator() (int i, const Tracked & t) const { touch(); note(); ArgView v { 0, i, &t, nullptr }; deliver(cb(), v); }
 	void operator() (Tracked t) const {
-		touch();
+		touch(); note();
 		ArgView v { 1, 0, &t, nullptr };
 		deliver(cb(), v);
 		// a by-value parameter belongs to the callback: steal it, so that a list that forwarded (moved)
@@ -67,7 +73,7 @@ struct Cb : public LedgeredT<2>
 		Tracked stolen(std::move(t));
 		(void)stolen;
 	}
-	void operator() (int & r) const { touch(); ArgView v { 2, 0, nullptr, &r }; deliver(cb(), v); }
+	void operator() (int & r) const { touch(); note(); ArgView v { 2, 0, nullptr, &r }; deliver(cb(), v); }
 
 	bool operator == (const Cb & o) const { touch(); o.touch(); return id == o.id; }
 	bool operator != (const Cb & o) const { return ! (*this == o); }
@@ -189,9 +195,10 @@ struct Impl : IImpl
 			slots[slot].p = nullptr;
 		}
 	}
-	void append(int slot, int cb) override { handles.push_back(L(slot).append(Cb(cb))); }
-	void prepend(int slot, int cb) override { handles.push_back(L(slot).prepend(Cb(cb))); }
-	void insert(int slot, int cb, int h) override { handles.push_back(L(slot).insert(Cb(cb), H(h))); }
+	int addSerial = 0; // the n-th add through this back end creates model node n as long as no list is copied
+	void append(int slot, int cb) override { handles.push_back(L(slot).append(Cb(cb, addSerial++))); }
+	void prepend(int slot, int cb) override { handles.push_back(L(slot).prepend(Cb(cb, addSerial++))); }
+	void insert(int slot, int cb, int h) override { handles.push_back(L(slot).insert(Cb(cb, addSerial++), H(h))); }
 	bool remove(int slot, int h) override { return L(slot).remove(H(h)); }
 	bool owns(int slot, int h) override { return L(slot).ownsHandle(H(h)); }
 	bool empty(int slot) override { return L(slot).empty(); }
@@ -350,6 +357,7 @@ struct Interp
 	int nextSerial = 1;
 	bool failed = false;
 	bool multi = false;
+	std::vector<int> callsOfSerial;
 	bool allowReuse = false;
 	std::ostringstream log;
 	unsigned long long lastCounter[kMaxLists];
@@ -895,6 +903,15 @@ struct Interp
 		if(! argOk) {
 			fail("cbl.invoke.args", domainProp(), "callback cb" + std::to_string(cb) + " (call #" + std::to_string(f.calls) + ") did not receive the invocation's arguments intact");
 			return;
+		}
+		if(! multi && g_cbSerial >= 0) {
+			// (only without copies of lists: a copied list holds copies of the callbacks, with their state)
+			if((size_t)g_cbSerial >= callsOfSerial.size()) callsOfSerial.resize((size_t)g_cbSerial + 1, 0);
+			if(++callsOfSerial[(size_t)g_cbSerial] != g_cbOwnCalls) {
+				fail("cbl.callback.state", domainProp(), "callback cb" + std::to_string(cb) + " has been called " + std::to_string(callsOfSerial[(size_t)g_cbSerial]) + " time(s), but the object that ran counts " + std::to_string(g_cbOwnCalls)
+					+ " call(s) of its own: the invocation did not call the callback object stored in the list (state kept inside a callback is lost)");
+				return;
+			}
 		}
 		++f.calls;
 		f.lastCalledNode = node;
